@@ -511,9 +511,57 @@ func (c *Ctx) c01Length() {
 		return false
 	}
 	n := 0
-	for _, fn := range c.P.SrcFuncs("align") {
+	c.P.Func("align", "*seqbag", "appendToSequence") // an anchor of this rule: its calls stay visible in the views
+	touchesRows := func(f *ssa.Function) bool {
+		found := false
+		for _, g := range withAnons(f) {
+			allInstrs(g, func(in ssa.Instruction) {
+				if st, ok := in.(*ssa.Store); ok {
+					if t, fld, fa := fieldAddrOf(st.Addr); fa != nil && t == "seq" && fld == "sequence" {
+						if _, fresh := fa.X.(*ssa.Alloc); !fresh {
+							found = true
+						}
+					}
+				}
+				if isCallToMethod(in, "seqbag", "appendToSequence") {
+					found = true
+				}
+			})
+		}
+		return found
+	}
+	for _, fn0 := range c.P.SrcFuncs("align") {
+		fn := fn0
 		if recvTypeName(fn) != "align" || fn.Parent() != nil {
 			continue
+		}
+		// a private helper of *align methods is checked where it is used: in the inlined view of
+		// each method that calls it (the length update may rightly be the caller's business)
+		if isHelper, _ := c.privateHelperOf(fn, func(string) bool { return false }); !token.IsExported(fn.Name()) && !isHelper && !c.valueUse[fn] && len(c.callersIdx[fn]) > 0 && touchesRows(fn) {
+			allAlign := true
+			for _, g := range c.callersIdx[fn] {
+				r := g
+				for r.Parent() != nil {
+					r = r.Parent()
+				}
+				if recvTypeName(r) != "align" {
+					allAlign = false
+				}
+			}
+			if allAlign {
+				continue
+			}
+		}
+		usesHelper := false
+		allInstrs(fn, func(in ssa.Instruction) {
+			if cc := callOf(in); cc != nil {
+				if g := cc.StaticCallee(); g != nil && g != fn && g.Pkg == fn.Pkg && !token.IsExported(g.Name()) && recvTypeName(g) == "align" && touchesRows(g) {
+					usesHelper = true
+				}
+			}
+		})
+		if usesHelper {
+			fn = c.viewOf(fn)
 		}
 		var rowStores []*ssa.Store
 		for _, g := range withAnons(fn) {
@@ -587,6 +635,10 @@ func (c *Ctx) c01Length() {
 				continue
 			}
 			ok, _ := mustFollow(fn, func(in ssa.Instruction) bool { return in == top }, isLenStore)
+			if !ok {
+				// returns of a non-nil error may skip the update (as for the callback form)
+				ok = onlyErrorReturnsSkip(fn, top, isLenStore)
+			}
 			L.Check(ok, "length-after-row-change", name, cons, c.P.Pos(top.Pos()), "followed by a store to align.length on every path", "rows are extended and the cached length is not updated on some path")
 		}
 	}
@@ -941,7 +993,20 @@ func onlyErrorReturnsSkip(fn *ssa.Function, from ssa.Instruction, isY func(ssa.I
 						}
 					}
 				}
-				_ = rt
+				// or every value the error result can take at this return is known to be non-nil
+				// (a merge of fmt.Errorf / errors.New results, or of errors tested non-nil)
+				if !okRet {
+					all, any := true, false
+					for _, e := range returnEdges(fn) {
+						if e.ret == rt {
+							any = true
+							if e.kind != "err" {
+								all = false
+							}
+						}
+					}
+					okRet = any && all
+				}
 				if !okRet {
 					ok = false
 				}
